@@ -246,7 +246,6 @@ for _m, _e, _o, _c in T2_SCENARIOS:
     t2_tasks(PROP, "interruptions", [(_m, _e, _o)], [c40_checks], expect=[R_FLAG] + ([R_MISSING, R_EXTRA] if _o.get("re_attrs") else []), covers=_c)
 
 
-
 def _twin(sc, tr):
     n = {"asked": 0, "recorded": 0}
 
